@@ -45,7 +45,7 @@ fn ring_summary(r: &HashRing) -> (String, bool) {
     let mut ps: Vec<u64> = pos.iter().map(|x| x.0).collect();
     ps.sort();
     let inj = ps.windows(2).all(|w| w[0] != w[1]);
-    let mut s = format!("ring {} {} inj={} phys", pos.len(), h, inj as u8);
+    let mut s = format!("ring {} {} inj={} rf={} n={} ver={} phys", pos.len(), h, inj as u8, r.replication_factor(), r.node_count(), r.version());
     for n in r.nodes() {
         s.push_str(&format!(" {}", n.0));
     }
@@ -64,7 +64,29 @@ impl Ctx {
                 assert!(*n == node && *i as usize <= pos.len());
                 s.push_str(&format!(" {}", p));
             }
-            self.out.op(s, "ok".into());
+            self.out.op(s, "ok conflicts=0".into());
+        }
+    }
+
+    /// `KP` line: the real ring positions of the keys (hook H2); the model computes its own
+    /// (SipHash-1-3 of the key's bytes and 0xff) and counts the differences
+    fn op_key_positions(&mut self, keys: &[String]) {
+        let mut l = format!("KP {}", keys.len());
+        for k in keys {
+            l.push_str(&format!(" {} {}", crate::enc::hex(k.as_bytes()), HashRing::verif_key_position(k)));
+        }
+        self.out.op(l, "ok conflicts=0".into());
+    }
+
+    /// `SIP` lines: the real `DefaultHasher` on raw byte strings (every length 0..=24, then random)
+    fn op_sip(&mut self, rng: &mut Rng, n: usize) {
+        use std::hash::Hasher;
+        for i in 0..n {
+            let len = if i <= 24 { i } else { rng.range(25, 200) as usize };
+            let bytes: Vec<u8> = (0..len).map(|_| match rng.below(4) { 0 => 0, 1 => 255, _ => rng.below(256) as u8 }).collect();
+            let mut h = std::collections::hash_map::DefaultHasher::new();
+            h.write(&bytes);
+            self.out.op(format!("SIP {}", crate::enc::hex(&bytes)), h.finish().to_string());
         }
     }
 
@@ -100,6 +122,54 @@ impl Ctx {
         res
     }
 
+    /// `OBS` line: is_responsible / is_responsible_with_rf / get_primary / contains_node for
+    /// (key, node) pairs, checked against get_replicas on the real ring
+    fn op_observers(&mut self, r: &HashRing, pairs: &[(String, u64)], rf: usize) {
+        let mut l = format!("OBS {} {}", rf, pairs.len());
+        let mut a = Vec::new();
+        for (k, n) in pairs {
+            l.push_str(&format!(" {} {}", HashRing::verif_key_position(k), n));
+            let node = ReplicaId::new(*n);
+            let (resp, resp_rf, prim, has) = (r.is_responsible(k, node), r.is_responsible_with_rf(k, node, rf), r.get_primary(k), r.contains_node(node));
+            a.push(format!("{}:{}:{}:{}", resp as u8, resp_rf as u8, prim.map(|p| p.0.to_string()).unwrap_or("-".into()), has as u8));
+            let reps = r.get_replicas(k);
+            let reps_rf = r.get_replicas_with_rf(k, rf);
+            if resp != reps.contains(&node) || resp_rf != reps_rf.contains(&node) || prim != reps.first().cloned() || has != r.nodes().contains(&node) {
+                self.out.violation("C19:observers:disagree-with-replica-list",
+                    "is_responsible / is_responsible_with_rf / get_primary / contains_node disagree with get_replicas / nodes()",
+                    json!({"key": k, "node": n, "rf": rf, "replicas": ids(&reps), "replicas_rf": ids(&reps_rf), "is_responsible": resp, "is_responsible_with_rf": resp_rf, "primary": prim.map(|p| p.0), "contains_node": has}));
+            }
+        }
+        self.out.op(l, format!("o {}", a.join("|")));
+        self.out.count("observers:probed");
+    }
+
+    /// `STATS` line: get_distribution_stats (the integer fields)
+    fn op_stats(&mut self, r: &HashRing, keys: &[String]) {
+        let refs: Vec<&str> = keys.iter().map(|k| k.as_str()).collect();
+        let st = r.get_distribution_stats(&refs);
+        let mut l = format!("STATS {}", keys.len());
+        for k in keys {
+            l.push_str(&format!(" {}", HashRing::verif_key_position(k)));
+        }
+        self.out.op(l, format!("stats {} {} {}", st.total_assignments, st.min_per_node, st.max_per_node));
+    }
+
+    /// `NEWD` line: HashRing::with_defaults
+    fn op_new_defaults(&mut self, nodes: &[u64]) -> HashRing {
+        for n in nodes {
+            self.define(*n);
+        }
+        let r = HashRing::with_defaults(nodes.iter().map(|n| ReplicaId::new(*n)).collect());
+        let (s, _) = ring_summary(&r);
+        let mut l = format!("NEWD {}", nodes.len());
+        for n in nodes {
+            l.push_str(&format!(" {}", n));
+        }
+        self.out.op(l, s);
+        r
+    }
+
     fn op_targets(&mut self, r: &HashRing, keys: &[String], sender: u64) -> Vec<Vec<u64>> {
         let mut l = format!("T {} {}", sender, keys.len());
         let mut res = Vec::new();
@@ -124,6 +194,21 @@ fn rand_key(rng: &mut Rng) -> String {
         6 => format!("{}", rng.next()),
         _ => format!("k{}", rng.below(20)),
     }
+}
+
+/// the `i`-th delta of a batch: its own payload and stamp, so that two deltas for the same key are
+/// different UPDATES (identity = position in the batch, readable from the stamp)
+fn mk_delta_i(key: &str, src: u64, i: usize) -> ReplicationDelta {
+    let rid = ReplicaId::new(src);
+    ReplicationDelta::new(
+        key.to_string(),
+        ReplicatedValue::with_value(SDS::from_str(&format!("v{}", i)), LamportClock { time: i as u64 + 1, replica_id: rid }),
+        rid,
+    )
+}
+
+fn delta_index(d: &ReplicationDelta) -> usize {
+    d.value.timestamp.time as usize - 1
 }
 
 fn mk_delta(key: &str, src: u64) -> ReplicationDelta {
@@ -184,22 +269,47 @@ struct RouterSpec {
     selective: bool,
     peer_ids: Vec<u64>, // kind = new
     npeers: usize,      // kind = cfg
+    /// kind = cfg: ReplicationConfig.partitioned_mode / .enabled (uses_selective_gossip = all three)
+    partitioned: bool,
+    enabled: bool,
+}
+
+impl RouterSpec {
+    fn effective_selective(&self) -> bool {
+        if self.kind == "cfg" { self.selective && self.partitioned && self.enabled } else { self.selective }
+    }
 }
 
 fn build_router(spec: &RouterSpec, ring: &HashRing) -> (GossipRouter, ReplicationConfig) {
+    let (rt, cfg, _) = build_router_shared(spec, ring);
+    (rt, cfg)
+}
+
+/// … also returns the ring the router shares (`Arc<RwLock<HashRing>>`: a membership change made
+/// through it must be seen by the router)
+fn build_router_shared(spec: &RouterSpec, ring: &HashRing) -> (GossipRouter, ReplicationConfig, Arc<RwLock<HashRing>>) {
     let arc = Arc::new(RwLock::new(ring.clone()));
+    let shared = arc.clone();
+    let (rt, cfg) = build_router_on(spec, arc, ring.replication_factor());
+    (rt, cfg, shared)
+}
+
+fn build_router_on(spec: &RouterSpec, arc: Arc<RwLock<HashRing>>, rf: usize) -> (GossipRouter, ReplicationConfig) {
+    let ring_rf = rf;
     if spec.kind == "new" {
         let mut m = HashMap::new();
         for (i, id) in spec.peer_ids.iter().enumerate() {
             m.insert(ReplicaId::new(*id), format!("peer{}", i));
         }
-        let mut cfg = ReplicationConfig::new_partitioned_cluster(spec.me, vec![], ring.replication_factor());
+        let mut cfg = ReplicationConfig::new_partitioned_cluster(spec.me, vec![], ring_rf);
         cfg.selective_gossip = spec.selective;
         (GossipRouter::new(arc, ReplicaId::new(spec.me), m, spec.selective), cfg)
     } else {
         let peers: Vec<String> = (0..spec.npeers).map(|i| format!("peer{}", i)).collect();
-        let mut cfg = ReplicationConfig::new_partitioned_cluster(spec.me, peers, ring.replication_factor());
+        let mut cfg = ReplicationConfig::new_partitioned_cluster(spec.me, peers, ring_rf);
         cfg.selective_gossip = spec.selective;
+        cfg.partitioned_mode = spec.partitioned;
+        cfg.enabled = spec.enabled;
         (GossipRouter::from_config(&cfg, arc), cfg)
     }
 }
@@ -224,14 +334,23 @@ fn router_ops(ctx: &mut Ctx, rng: &mut Rng, ring: &HashRing, members: &[u64], sp
         }
         l
     } else {
-        format!("RCFG {} {} {}", spec.me, spec.npeers, spec.selective as u8)
+        format!("RCFG {} {} {} {} {}", spec.me, spec.npeers, spec.selective as u8, spec.partitioned as u8, spec.enabled as u8)
     };
     let mut a = format!("peers self={} sel={}", rt.my_replica().0, rt.is_selective() as u8);
     for (id, addr) in &peers {
         a.push_str(&format!(" {}:{}", id, addr));
     }
     ctx.out.op(line, a);
-    ctx.out.count(&format!("router:{}:{}", spec.kind, if spec.selective { "selective" } else { "broadcast" }));
+    let selective = spec.effective_selective();
+    ctx.out.count(&format!("router:{}:{}", spec.kind, if selective { "selective" } else { "broadcast" }));
+    if spec.kind == "cfg" {
+        ctx.out.count(&format!("from_config:selective_gossip={}:partitioned_mode={}:enabled={}", spec.selective as u8, spec.partitioned as u8, spec.enabled as u8));
+    }
+    if rt.is_selective() != selective {
+        ctx.out.violation("C19:from_config:selective-mode",
+            &format!("the router is_selective() = {} for selective_gossip = {}, partitioned_mode = {}, enabled = {} (uses_selective_gossip is the conjunction)", rt.is_selective(), spec.selective, spec.partitioned, spec.enabled),
+            json!({"selective_gossip": spec.selective, "partitioned_mode": spec.partitioned, "enabled": spec.enabled, "is_selective": rt.is_selective()}));
+    }
 
     let replay = |what: &str, extra: serde_json::Value| {
         json!({"what": what, "members": members, "vnodes_rf": [ring.verif_ring_positions().len() / members.len().max(1), ring.replication_factor()],
@@ -264,12 +383,16 @@ fn router_ops(ctx: &mut Ctx, rng: &mut Rng, ring: &HashRing, members: &[u64], sp
         let d = dkeys[0].clone();
         dkeys.push(d); // the same key twice in one batch
     }
-    let deltas: Vec<ReplicationDelta> = dkeys.iter().map(|k| mk_delta(k, spec.me)).collect();
+    // every delta of the batch is its own update (payload v<i>, stamp i + 1): the same key may occur
+    // several times (a key written twice within one gossip interval)
+    let deltas: Vec<ReplicationDelta> = dkeys.iter().enumerate().map(|(i, k)| mk_delta_i(k, spec.me, i)).collect();
     let kps: Vec<u64> = dkeys.iter().map(|k| HashRing::verif_key_position(k)).collect();
     let table = rt.route_deltas(deltas.clone());
     let mut tbl: BTreeMap<u64, Vec<u64>> = BTreeMap::new();
+    let mut tbl_idx: BTreeMap<u64, Vec<usize>> = BTreeMap::new();
     for (t, ds) in &table {
         tbl.insert(t.0, ds.iter().map(|d| HashRing::verif_key_position(&d.key)).collect());
+        tbl_idx.insert(t.0, ds.iter().map(delta_index).collect());
     }
     let mut l = format!("ROUTE {}", kps.len());
     for k in &kps {
@@ -280,28 +403,42 @@ fn router_ops(ctx: &mut Ctx, rng: &mut Rng, ring: &HashRing, members: &[u64], sp
         a.push_str(&format!(" {}:{}", t, csv(ds)));
     }
     ctx.out.op(l, a);
+    ctx.out.count(if dkeys.iter().collect::<BTreeSet<_>>().len() < dkeys.len() { "route:batch:key-repeated" } else { "route:batch:distinct-keys" });
 
-    // oracle: every owner other than the sender is handed the delta, nobody else is
+    // oracle, per DELTA (not per key): every delta of the batch is handed to every responsible
+    // replica other than the sender — once, in batch order — and to nobody else
     // (the property speaks about clusters in which the router can reach the other members:
     //  explicit address books that cover the members, and every from_config router of a
     //  sequentially numbered cluster)
     let must_cover = (spec.kind == "new" && covering) || (seq_cluster && members.iter().all(|m| *m >= 1 && *m as usize <= spec.npeers + 1));
-    for (i, k) in dkeys.iter().enumerate() {
-        let owners = ids(&ring.get_replicas(k));
-        let everyone: BTreeSet<u64> = members.iter().chain(peers.keys()).cloned().collect();
-        for t in everyone.iter() {
-            let handed = tbl.get(t).map(|ds| ds.contains(&kps[i])).unwrap_or(false);
-            let owner = owners.contains(t) && *t != spec.me;
-            if spec.selective && handed && !owner {
+    let owners_of: Vec<Vec<u64>> = dkeys.iter().map(|k| ids(&ring.get_replicas(k))).collect();
+    let everyone: BTreeSet<u64> = members.iter().chain(peers.keys()).cloned().collect();
+    let batch_json: Vec<serde_json::Value> = dkeys.iter().enumerate().map(|(i, k)| json!({"delta": i, "key": k, "payload": format!("v{}", i), "owners": owners_of[i]})).collect();
+    for t in everyone.iter() {
+        let got: Vec<usize> = tbl_idx.get(t).cloned().unwrap_or_default();
+        for (i, k) in dkeys.iter().enumerate() {
+            let handed = got.contains(&i);
+            let owner = owners_of[i].contains(t) && *t != spec.me;
+            if selective && handed && !owner {
                 ctx.out.violation(&format!("C19:route:{}:non-owner-targeted", spec.kind),
                     "route_deltas hands a delta to a node that is not a responsible replica (or to the sender)",
-                    replay("route", json!({"key": k, "owners": owners, "target": t})));
+                    replay("route", json!({"batch": batch_json, "delta": i, "key": k, "owners": owners_of[i], "target": t})));
             }
             if owner && !handed && must_cover {
+                let earlier = dkeys[..i].iter().filter(|x| *x == k).count();
+                let later = dkeys[i + 1..].iter().filter(|x| *x == k).count();
                 ctx.out.violation(&format!("C19:route:{}:owner-starved", spec.kind),
-                    &format!("route_deltas (replica {}) does not hand the delta for key {:?} to owner {} (owners {:?}, registered peer ids {:?})", spec.me, k, t, owners, peers.keys().collect::<Vec<_>>()),
-                    replay("route", json!({"key": k, "owners": owners, "starved": t})));
+                    &format!("route_deltas (replica {}) does not hand delta #{} of the batch (key {:?}, payload v{}{}) to owner {} (owners {:?}, handed to {}: deltas {:?}, registered peer ids {:?})",
+                        spec.me, i, k, i, if earlier + later > 0 { format!(", occurrence {} of {} of this key in the batch", earlier + 1, earlier + later + 1) } else { String::new() },
+                        t, owners_of[i], t, got, peers.keys().collect::<Vec<_>>()),
+                    replay("route", json!({"batch": batch_json, "delta": i, "key": k, "owners": owners_of[i], "starved": t, "handed_to_target": got})));
             }
+        }
+        // once each, in batch order
+        if selective && (got.windows(2).any(|w| w[0] >= w[1])) {
+            ctx.out.violation(&format!("C19:route:{}:duplicate-or-reordered", spec.kind),
+                &format!("route_deltas hands target {} the deltas {:?}: a delta twice, or not in batch order (a later write of a key before an earlier one)", t, got),
+                replay("route", json!({"batch": batch_json, "target": t, "handed_to_target": got})));
         }
     }
 
@@ -354,7 +491,7 @@ fn router_ops(ctx: &mut Ctx, rng: &mut Rng, ring: &HashRing, members: &[u64], sp
     }
     ctx.out.op(l, a);
     ctx.out.count(if hb >= 9_999 { "queue:near-capacity" } else { "queue:small" });
-    if spec.selective {
+    if selective {
         // the queued messages are the routing table
         if bad_envelope || targeted != tbl || !broadcast.is_empty() {
             ctx.out.violation("C19:queue:differs-from-routing-table",
@@ -364,6 +501,110 @@ fn router_ops(ctx: &mut Ctx, rng: &mut Rng, ring: &HashRing, members: &[u64], sp
     } else if !deltas.is_empty() && (broadcast.len() != 1 || broadcast[0] != kps || !targeted.is_empty() || bad_envelope) {
         ctx.out.violation("C19:queue:broadcast-incomplete", "broadcast mode did not queue one DeltaBatch with all deltas",
             replay("queue", json!({"broadcast": broadcast})));
+    }
+
+    // ---- route_with_stats / calculate_reduction_ratio: the table must be route_deltas', the counters consistent
+    {
+        let (t2, st) = rt.route_with_stats(deltas.clone());
+        let mut tbl2: BTreeMap<u64, Vec<u64>> = BTreeMap::new();
+        for (t, ds) in &t2 {
+            tbl2.insert(t.0, ds.iter().map(|d| HashRing::verif_key_position(&d.key)).collect());
+        }
+        let mut l = format!("ROUTES {}", kps.len());
+        for k in &kps {
+            l.push_str(&format!(" {}", k));
+        }
+        let mut a = "tbl".to_string();
+        for (t, ds) in &tbl2 {
+            a.push_str(&format!(" {}:{}", t, csv(ds)));
+        }
+        a.push_str(&format!(" | stats {} {} {} {}", st.total_deltas, st.total_assignments, st.assignments_saved, st.unique_targets));
+        ctx.out.op(l, a);
+        if tbl2 != tbl {
+            ctx.out.violation("C19:route:with-stats-differs", "route_with_stats returns a different table than route_deltas", replay("route_with_stats", json!({"table": tbl, "with_stats": tbl2})));
+        }
+        let refs: Vec<&str> = dkeys.iter().map(|k| k.as_str()).collect();
+        let (sel_msgs, bc_msgs, _) = rt.calculate_reduction_ratio(&refs);
+        let mut l = format!("RATIO {}", kps.len());
+        for k in &kps {
+            l.push_str(&format!(" {}", k));
+        }
+        ctx.out.op(l, format!("ratio {} {}", sel_msgs, bc_msgs));
+    }
+
+    // ---- dynamic membership of the address book (update_peer / remove_peer) and of the SHARED ring:
+    // the router holds an Arc<RwLock<HashRing>>; a change made through it is seen by the next route
+    if spec.kind == "new" && !keys.is_empty() {
+        let (mut rt3, _, shared) = build_router_shared(spec, ring);
+        let mut book = peers.clone();
+        for _ in 0..rng.range(1, 3) {
+            if rng.chance(1, 2) {
+                let id = if rng.chance(2, 3) && !members.is_empty() { *rng.pick(members) } else { rng.below(12) };
+                let addr = 100 + rng.below(50);
+                rt3.update_peer(ReplicaId::new(id), format!("peer{}", addr));
+                book.insert(id, addr);
+                let mut a = format!("peers self={} sel={}", rt3.my_replica().0, rt3.is_selective() as u8);
+                for (i, ad) in &peers_of(&rt3) {
+                    a.push_str(&format!(" {}:{}", i, ad));
+                }
+                ctx.out.op(format!("RUPD {} {}", id, addr), a);
+                ctx.out.count("router:update_peer");
+            } else {
+                let id = if rng.chance(2, 3) && !book.is_empty() { *book.keys().nth(rng.below(book.len() as u64) as usize).unwrap() } else { rng.below(12) };
+                rt3.remove_peer(ReplicaId::new(id));
+                book.remove(&id);
+                let mut a = format!("peers self={} sel={}", rt3.my_replica().0, rt3.is_selective() as u8);
+                for (i, ad) in &peers_of(&rt3) {
+                    a.push_str(&format!(" {}:{}", i, ad));
+                }
+                ctx.out.op(format!("RREM {}", id), a);
+                ctx.out.count("router:remove_peer");
+            }
+            if peers_of(&rt3) != book {
+                ctx.out.violation("C19:router:address-book", "update_peer / remove_peer did not leave the expected address book", replay("address book", json!({"expected": book, "got": peers_of(&rt3)})));
+            }
+        }
+        // membership change through the shared ring
+        let x = if rng.chance(1, 2) && !members.is_empty() { *rng.pick(members) } else { rng.range(1, 9) };
+        let add = !members.contains(&x) || rng.chance(1, 4);
+        if add {
+            ctx.define(x);
+            shared.write().unwrap().add_node(ReplicaId::new(x));
+        } else {
+            shared.write().unwrap().remove_node(ReplicaId::new(x));
+        }
+        let now = shared.read().unwrap().clone();
+        let (sum, _) = ring_summary(&now);
+        ctx.out.op(format!("{} {}", if add { "ADD" } else { "REM" }, x), sum);
+        ctx.out.count("router:shared-ring-changed-after-construction");
+        let table = rt3.route_deltas(deltas.clone());
+        let mut tbl3: BTreeMap<u64, Vec<u64>> = BTreeMap::new();
+        for (t, ds) in &table {
+            tbl3.insert(t.0, ds.iter().map(|d| HashRing::verif_key_position(&d.key)).collect());
+        }
+        let mut l = format!("ROUTE {}", kps.len());
+        for k in &kps {
+            l.push_str(&format!(" {}", k));
+        }
+        let mut a = "tbl".to_string();
+        for (t, ds) in &tbl3 {
+            a.push_str(&format!(" {}:{}", t, csv(ds)));
+        }
+        ctx.out.op(l, a);
+        if selective {
+            for (i, k) in dkeys.iter().enumerate() {
+                let owners = ids(&now.get_replicas(k));
+                for (t, _) in book.iter() {
+                    let handed = tbl3.get(t).map(|ds| ds.contains(&kps[i])).unwrap_or(false);
+                    let owner = owners.contains(t) && *t != spec.me;
+                    if handed != owner {
+                        ctx.out.violation(if owner { "C19:route:shared-ring:owner-starved" } else { "C19:route:shared-ring:non-owner-targeted" },
+                            "after a membership change made through the shared ring, route_deltas does not follow the CURRENT replica lists",
+                            replay("route after membership change", json!({"key": k, "owners_now": owners, "target": t, "change": if add { "add_node" } else { "remove_node" }, "node": x})));
+                    }
+                }
+            }
+        }
     }
 }
 
@@ -404,6 +645,7 @@ fn scenario(ctx: &mut Ctx, rng: &mut Rng, thorough: bool, idx: u64) {
     } as usize;
     let nkeys = rng.range(12, 28) as usize;
     let keys: Vec<String> = (0..nkeys).map(|_| rand_key(rng)).collect();
+    ctx.op_key_positions(&keys);
     ctx.out.count(&format!("nodes:{}", k));
     ctx.out.count(&format!("rf:{}", rf));
     ctx.out.count(match vnodes { 0 => "vnodes:0", 1 => "vnodes:1", 2..=8 => "vnodes:2-8", 9..=32 => "vnodes:9-32", 33..=100 => "vnodes:33-100", _ => "vnodes:101-200" });
@@ -493,6 +735,23 @@ fn scenario(ctx: &mut Ctx, rng: &mut Rng, thorough: bool, idx: u64) {
         }
     }
 
+    // ---- the remaining observers of the ring
+    {
+        let pairs: Vec<(String, u64)> = (0..6).map(|_| (rng.pick(&keys).clone(), if !members.is_empty() && rng.chance(3, 4) { *rng.pick(&members) } else { *rng.pick(&universe) })).collect();
+        ctx.op_observers(&ring, &pairs, rng.below(8) as usize);
+        if rng.chance(1, 3) {
+            ctx.op_stats(&ring, &keys);
+        }
+    }
+    // ---- per-key replication factor from the real AdaptiveReplicationManager (hot keys get hot_key_rf)
+    if rng.chance(1, 3) {
+        adaptive_ops(ctx, rng, &ring, &members, vnodes, &keys, idx);
+    }
+    // ---- GossipState as a state machine (direct and through the GossipActor)
+    if rng.chance(1, 4) && !members.is_empty() {
+        gossip_state_session(ctx, rng, &ring, &members, &keys);
+    }
+
     // ---- add / remove sequence
     let steps = rng.range(2, 5);
     let mut before = ring_replicas(&ring, &keys);
@@ -534,6 +793,48 @@ fn scenario(ctx: &mut Ctx, rng: &mut Rng, thorough: bool, idx: u64) {
         before = after;
     }
 
+    // ---- history shapes: the ring emptied completely and refilled in another order; with_defaults
+    if rng.chance(1, 6) && !members.is_empty() {
+        let old = members.clone();
+        for m in &old {
+            ring.remove_node(ReplicaId::new(*m));
+            let (s, _) = ring_summary(&ring);
+            ctx.out.op(format!("REM {}", m), s);
+        }
+        let mut back = old.clone();
+        rng.shuffle(&mut back);
+        for m in &back {
+            ring.add_node(ReplicaId::new(*m));
+            let (s, _) = ring_summary(&ring);
+            ctx.out.op(format!("ADD {}", m), s);
+        }
+        ctx.out.count("history:emptied-then-refilled");
+        let after = ctx.op_replicas(&ring, &keys, None);
+        if after != before && ring.verif_ring_positions().windows(2).all(|w| w[0].0 != w[1].0) {
+            ctx.out.violation("C19:order:refilled-ring-differs", "a ring emptied and refilled with the same members places keys differently",
+                json!({"members_before": old, "rejoin_order": back, "vnodes": vnodes, "rf": rf}));
+        }
+        members = ids(ring.nodes());
+    }
+    if rng.chance(1, 12) {
+        let k = rng.range(1, 5);
+        let seq: Vec<u64> = (1..=k).collect();
+        let rd = ctx.op_new_defaults(&seq);
+        let reps = ctx.op_replicas(&rd, &keys, None);
+        for (i, r) in reps.iter().enumerate() {
+            check_count(&mut ctx.out, r, 3, &seq, 150, json!({"api": "with_defaults", "nodes": seq, "key": keys[i], "replicas": r}));
+        }
+        ctx.out.count("ring:with_defaults");
+        // the model's current ring must be the scenario's again
+        let cur: Vec<u64> = ids(ring.nodes());
+        let fresh = ctx.op_new(&cur, vnodes, rf);
+        if fresh.verif_ring_positions() != ring.verif_ring_positions() {
+            ctx.out.count("excluded:rebuilt-ring-differs(position-collision)");
+        }
+        // version restarts with a fresh ring: continue on the fresh one
+        ring = fresh;
+    }
+
     // ---- routers on the current ring (explicit address book)
     if !members.is_empty() {
         let me = if rng.chance(5, 6) { *rng.pick(&members) } else { *rng.pick(&universe) };
@@ -548,7 +849,7 @@ fn scenario(ctx: &mut Ctx, rng: &mut Rng, thorough: bool, idx: u64) {
             _ => {}
         }
         rng.shuffle(&mut peer_ids);
-        let spec = RouterSpec { kind: "new", me, selective: !rng.chance(1, 5), peer_ids, npeers: 0 };
+        let spec = RouterSpec { kind: "new", me, selective: !rng.chance(1, 5), peer_ids, npeers: 0, partitioned: true, enabled: true };
         router_ops(ctx, rng, &ring, &members, &spec, &keys, &format!("case {}", idx));
     }
 
@@ -568,8 +869,13 @@ fn scenario(ctx: &mut Ctx, rng: &mut Rng, thorough: bool, idx: u64) {
             1 if n >= 2 => n as usize - 2, // one too few
             _ => n as usize - 1,
         };
-        let spec = RouterSpec { kind: "cfg", me, selective: !rng.chance(1, 6), peer_ids: vec![], npeers };
+        // every field uses_selective_gossip reads is generated: selective_gossip, partitioned_mode, enabled
+        let spec = RouterSpec { kind: "cfg", me, selective: !rng.chance(1, 6), peer_ids: vec![], npeers, partitioned: !rng.chance(1, 8), enabled: !rng.chance(1, 8) };
         router_ops(ctx, rng, &r, &seq, &spec, &keys, &format!("case {}", idx));
+        if rng.chance(1, 40) {
+            let dk: Vec<String> = (0..rng.range(1, 4)).map(|_| rng.pick(&keys).clone()).collect();
+            gossip_loop_ops(ctx, &r, &seq, &spec, &dk, if rng.chance(1, 2) { "lock" } else { "actor" }, &format!("case {}", idx));
+        }
     }
 
     // ---- GossipState without router: broadcast
@@ -597,6 +903,428 @@ fn scenario(ctx: &mut Ctx, rng: &mut Rng, thorough: bool, idx: u64) {
     }
 }
 
+
+/// per-key replication factor: the REAL AdaptiveReplicationManager decides which keys are hot
+/// (its detector is float-based and not modelled: the op line carries the hot set it reports);
+/// the model answers the rf of every key and the replica list for that rf
+fn adaptive_ops(ctx: &mut Ctx, rng: &mut Rng, ring: &HashRing, members: &[u64], vnodes: u32, keys: &[String], idx: u64) {
+    use redis_sim::production::{AdaptiveConfig, AdaptiveReplicationManager};
+    let mut cfg = match rng.below(4) {
+        0 => AdaptiveConfig::default(),
+        1 => AdaptiveConfig::high_throughput(),
+        2 => AdaptiveConfig::low_latency(),
+        _ => AdaptiveConfig { base_rf: rng.below(5) as u8, hot_key_rf: rng.below(8) as u8, ..AdaptiveConfig::default() },
+    };
+    cfg.hotkey_config.hot_threshold = 1.0;
+    cfg.recalc_interval_ms = if rng.chance(1, 2) { 1 } else { u64::MAX };
+    let (base, hot) = (cfg.base_rf, cfg.hot_key_rf);
+    let mut mgr = AdaptiveReplicationManager::new(cfg);
+    let hot_keys: Vec<&String> = keys.iter().filter(|_| rng.chance(1, 3)).collect();
+    let mut now = 1_000u64;
+    for _ in 0..40 {
+        for k in &hot_keys {
+            mgr.observe(k, rng.chance(1, 2), now);
+        }
+        now += 10;
+    }
+    for k in keys.iter().take(3) {
+        mgr.observe(k, false, now); // a single access: cold
+    }
+    mgr.force_recalculate(now);
+    let overrides: BTreeMap<String, u8> = mgr.get_hot_key_updates().into_iter().collect();
+    ctx.out.count(&format!("adaptive:hot-keys:{}", match overrides.len() { 0 => "0", 1..=3 => "1-3", _ => "4+" }));
+    ctx.out.count(&format!("adaptive:{}", if hot > base { "hot_rf>base_rf" } else if hot == base { "hot_rf=base_rf" } else { "hot_rf<base_rf" }));
+    // ARF <base> <hot> <nhot> <hot keypos>* <m> <keypos>*
+    let mut l = format!("ARF {} {} {}", base, hot, overrides.len());
+    for k in overrides.keys() {
+        l.push_str(&format!(" {}", HashRing::verif_key_position(k)));
+    }
+    l.push_str(&format!(" {}", keys.len()));
+    let mut a = Vec::new();
+    for k in keys {
+        l.push_str(&format!(" {}", HashRing::verif_key_position(k)));
+        let rf = mgr.get_rf_for_key(k);
+        let reps = ids(&ring.get_replicas_with_rf(k, rf as usize));
+        let base_reps = ids(&ring.get_replicas_with_rf(k, base as usize));
+        a.push(format!("{}:{}", rf, csv(&reps)));
+        let want_rf = if overrides.contains_key(k) { hot } else { base };
+        if rf != want_rf || overrides.get(k).map(|x| *x != hot).unwrap_or(false) {
+            ctx.out.violation("C19:adaptive:rf-not-base-or-hot", &format!("get_rf_for_key({:?}) = {}, the key is {} (base_rf {}, hot_key_rf {})", k, rf, if overrides.contains_key(k) { "hot" } else { "not hot" }, base, hot),
+                json!({"key": k, "rf": rf, "base_rf": base, "hot_key_rf": hot, "hot_keys": overrides.keys().collect::<Vec<_>>()}));
+        }
+        check_count(&mut ctx.out, &reps, rf as usize, members, vnodes, json!({"api": "get_replicas_with_rf(key, AdaptiveReplicationManager::get_rf_for_key(key))", "key": k, "rf": rf, "replicas": reps, "case": idx}));
+        // promotion only adds owners / demotion only drops the added ones: the shorter list is a prefix
+        let (short, long) = if reps.len() <= base_reps.len() { (&reps, &base_reps) } else { (&base_reps, &reps) };
+        if long[..short.len()] != short[..] {
+            ctx.out.violation("C19:adaptive:rf-change-moves-owners",
+                &format!("key {:?}: the replica list for rf {} is {:?}, for base_rf {} it is {:?}: neither is a prefix of the other, changing the RF of a key moves it between nodes", k, rf, reps, base, base_reps),
+                json!({"key": k, "rf": rf, "replicas": reps, "base_rf": base, "base_replicas": base_reps, "members": members}));
+        }
+    }
+    ctx.out.op(l, format!("a {}", a.join("|")));
+    // clear(): every key is back at base_rf
+    let n_hot = mgr.hot_key_count();
+    mgr.clear();
+    if n_hot != overrides.len() || mgr.hot_key_count() != 0 || keys.iter().any(|k| mgr.get_rf_for_key(k) != base) {
+        ctx.out.violation("C19:adaptive:clear-leaves-overrides", "after clear() a key still has an RF override (or hot_key_count disagrees with the override table)", json!({"base_rf": base, "hot_key_rf": hot}));
+    }
+}
+
+/// GossipState as a state machine: heartbeats, epochs, queue_deltas / queue_deltas_broadcast,
+/// set_router, is_selective, drain — driven twice with the same script: directly, and through the
+/// GossipActor (the production entry path); one op stream, both must answer it
+fn gossip_state_session(ctx: &mut Ctx, rng: &mut Rng, ring: &HashRing, members: &[u64], keys: &[String]) {
+    use redis_sim::production::GossipActor;
+    let me = *rng.pick(members);
+    let peer_ids: Vec<u64> = members.iter().cloned().filter(|m| *m != me).collect();
+    let spec = RouterSpec { kind: "new", me, selective: !rng.chance(1, 4), peer_ids, npeers: 0, partitioned: true, enabled: true };
+    // set_router installs a DIFFERENT router (mode flipped, one member without address) — and the
+    // next set_router the first one again
+    let spec2 = RouterSpec { kind: "new", me, selective: !spec.selective, peer_ids: spec.peer_ids.iter().skip(1).cloned().collect(), npeers: 0, partitioned: true, enabled: true };
+    let rnew_line = |sp: &RouterSpec| -> (String, String) {
+        let (r, _) = build_router(sp, ring);
+        let mut l = format!("RNEW {} {} {}", sp.me, sp.selective as u8, sp.peer_ids.len());
+        for p in &sp.peer_ids {
+            l.push_str(&format!(" {}", p));
+        }
+        let mut a = format!("peers self={} sel={}", r.my_replica().0, r.is_selective() as u8);
+        for (id, addr) in &peers_of(&r) {
+            a.push_str(&format!(" {}:{}", id, addr));
+        }
+        (l, a)
+    };
+    // the model's current router becomes this one
+    let (rt0, cfg) = build_router(&spec, ring);
+    let mut l = format!("RNEW {} {} {}", spec.me, spec.selective as u8, spec.peer_ids.len());
+    for p in &spec.peer_ids {
+        l.push_str(&format!(" {}", p));
+    }
+    let mut a = format!("peers self={} sel={}", rt0.my_replica().0, rt0.is_selective() as u8);
+    for (id, addr) in &peers_of(&rt0) {
+        a.push_str(&format!(" {}:{}", id, addr));
+    }
+    ctx.out.op(l, a);
+    // script
+    #[derive(Clone)]
+    enum Step { Hb(u64), Adv(u64), Q(Vec<String>), Qb(Vec<String>), Set, Sel, Drain }
+    let with_router = rng.chance(2, 3);
+    let mut script = Vec::new();
+    for _ in 0..rng.range(3, 9) {
+        script.push(match rng.below(9) {
+            0 => Step::Hb(rng.range(1, 3)),
+            1 | 2 => Step::Adv(rng.range(1, 3)),
+            3 | 4 | 5 => Step::Q((0..rng.range(0, 4)).map(|_| rng.pick(keys).clone()).collect()),
+            6 => Step::Qb((0..rng.range(0, 3)).map(|_| rng.pick(keys).clone()).collect()),
+            7 => Step::Set,
+            _ => if rng.chance(1, 2) { Step::Sel } else { Step::Drain },
+        });
+    }
+    script.push(Step::Sel);
+    script.push(Step::Drain);
+    let show = |q: &Vec<redis_sim::replication::gossip::RoutedMessage>, me: u64| -> (String, bool) {
+        let mut es: Vec<String> = Vec::new();
+        let mut bad = false;
+        for m in q {
+            match &m.message {
+                GossipMessage::Heartbeat { source_replica, epoch } => {
+                    bad |= source_replica.0 != me || m.target.is_some();
+                    es.push(format!("H@{}", epoch));
+                }
+                GossipMessage::TargetedDelta { source_replica, target_replica, deltas, epoch } => {
+                    bad |= source_replica.0 != me || m.target != Some(*target_replica);
+                    es.push(format!("T{}@{}:{}", target_replica.0, epoch, csv(&deltas.iter().map(|d| HashRing::verif_key_position(&d.key)).collect::<Vec<_>>())));
+                }
+                GossipMessage::DeltaBatch { source_replica, deltas, epoch } => {
+                    bad |= source_replica.0 != me || m.target.is_some();
+                    es.push(format!("B@{}:{}", epoch, csv(&deltas.iter().map(|d| HashRing::verif_key_position(&d.key)).collect::<Vec<_>>())));
+                }
+                _ => bad = true,
+            }
+        }
+        es.sort();
+        (std::iter::once(format!("q {}", q.len())).chain(es).collect::<Vec<_>>().join(" "), bad)
+    };
+    let kp = |ks: &[String]| -> String { std::iter::once(ks.len().to_string()).chain(ks.iter().map(|k| HashRing::verif_key_position(k).to_string())).collect::<Vec<_>>().join(" ") };
+    // ---- direct
+    let mut answers_direct: Vec<String> = Vec::new();
+    {
+        let mut gs = if with_router { GossipState::with_router(cfg.clone(), build_router(&spec, ring).0) } else { GossipState::new(cfg.clone()) };
+        ctx.out.op(format!("GNEW {} {}", me, with_router as u8), "g ok".into());
+        let mut nset = 0;
+        for st in &script {
+            match st {
+                Step::Hb(n) => { for _ in 0..*n { gs.queue_heartbeat(); } ctx.out.op(format!("GHB {}", n), "g ok".into()); }
+                Step::Adv(n) => { for _ in 0..*n { gs.advance_epoch(); } ctx.out.op(format!("GADV {}", n), "g ok".into()); }
+                Step::Q(ks) => { gs.queue_deltas(ks.iter().map(|k| mk_delta(k, me)).collect()); ctx.out.op(format!("GQ {}", kp(ks)), "g ok".into()); }
+                Step::Qb(ks) => { gs.queue_deltas_broadcast(ks.iter().map(|k| mk_delta(k, me)).collect()); ctx.out.op(format!("GQB {}", kp(ks)), "g ok".into()); }
+                Step::Set => {
+                    nset += 1;
+                    let sp = if nset % 2 == 1 { &spec2 } else { &spec };
+                    let (l, a) = rnew_line(sp);
+                    ctx.out.op(l, a);
+                    gs.set_router(build_router(sp, ring).0);
+                    ctx.out.op("GSET".into(), "g ok".into());
+                }
+                Step::Sel => { let a = format!("sel {}", gs.is_selective() as u8); answers_direct.push(a.clone()); ctx.out.op("GSEL".into(), a); }
+                Step::Drain => {
+                    let q = gs.drain_outbound();
+                    let (a, bad) = show(&q, me);
+                    if bad {
+                        ctx.out.violation("C19:gossip-state:envelope", "a queued message has a wrong source replica / target envelope", json!({"queue": a}));
+                    }
+                    answers_direct.push(a.clone());
+                    ctx.out.op("GDRAIN".into(), a);
+                }
+            }
+        }
+        let n_adv: u64 = script.iter().map(|s| if let Step::Adv(n) = s { *n } else { 0 }).sum();
+        answers_direct.push(format!("epoch {}", gs.epoch == n_adv));
+        ctx.out.count("gossip-state:session:direct");
+    }
+    // ---- the same script through the GossipActor
+    {
+        let rt = tokio::runtime::Builder::new_current_thread().enable_all().build().unwrap();
+        let answers_actor: Vec<String> = rt.block_on(async {
+            let h = if with_router { GossipActor::spawn_with_router(cfg.clone(), build_router(&spec, ring).0) } else { GossipActor::spawn(cfg.clone()) };
+            let mut res = Vec::new();
+            let mut nset = 0;
+            for st in &script {
+                match st {
+                    Step::Hb(n) => { for _ in 0..*n { h.queue_heartbeat(); } }
+                    Step::Adv(n) => { for _ in 0..*n { h.advance_epoch(); } }
+                    Step::Q(ks) => h.queue_deltas(ks.iter().map(|k| mk_delta(k, me)).collect()),
+                    Step::Qb(ks) => h.queue_deltas_broadcast(ks.iter().map(|k| mk_delta(k, me)).collect()),
+                    Step::Set => {
+                        nset += 1;
+                        h.set_router(build_router(if nset % 2 == 1 { &spec2 } else { &spec }, ring).0)
+                    }
+                    Step::Sel => res.push(format!("sel {}", h.is_selective().await as u8)),
+                    Step::Drain => { let q = h.drain_outbound().await; res.push(show(&q, me).0); }
+                }
+            }
+            let n_adv: u64 = script.iter().map(|s| if let Step::Adv(n) = s { *n } else { 0 }).sum();
+            res.push(format!("epoch {}", h.get_epoch().await == n_adv));
+            h.shutdown().await;
+            res
+        });
+        ctx.out.count("gossip-state:session:via-actor");
+        if answers_actor != answers_direct {
+            ctx.out.violation("C19:gossip-actor:differs-from-gossip-state",
+                "the same script of queue_heartbeat / advance_epoch / queue_deltas / queue_deltas_broadcast / set_router / drain gives different outbound messages through the GossipActor than on the GossipState",
+                json!({"direct": answers_direct, "via_actor": answers_actor, "self": me, "with_router": with_router}));
+        }
+    }
+}
+
+/// ONE tick of a gossip loop of production/gossip_manager.rs (`start_gossip_loop` over a locked
+/// GossipState, or `start_gossip_loop_with_actor`) over real loopback TCP: `npeers` listeners stand
+/// for the configured peers (index i of config.peers = member memberOfIndex(me, i)); the state
+/// carries the from_config router; the batch is handed out by collect_deltas once.  Observed: which
+/// key positions each configured peer receives.
+fn gossip_loop_ops(ctx: &mut Ctx, ring: &HashRing, members: &[u64], spec: &RouterSpec, dkeys: &[String], kind: &str, src: &str) {
+    use redis_sim::production::{GossipActor, GossipManager};
+    use std::sync::atomic::{AtomicUsize, Ordering};
+    use std::sync::Mutex;
+    let me = spec.me;
+    let n = spec.npeers;
+    let rt = tokio::runtime::Builder::new_current_thread().enable_all().build().unwrap();
+    let received: Vec<Arc<Mutex<Vec<GossipMessage>>>> = (0..n).map(|_| Arc::new(Mutex::new(Vec::new()))).collect();
+    let batch: Vec<ReplicationDelta> = dkeys.iter().enumerate().map(|(i, k)| mk_delta_i(k, me, i)).collect();
+    let ring_arc = Arc::new(RwLock::new(ring.clone()));
+    let outcome: Result<(), String> = rt.block_on(async {
+        use tokio::io::AsyncReadExt;
+        // the listeners are NOT served while the loop runs: connect() completes through the accept
+        // backlog and the small frames sit in the socket buffers.  After the loop task is gone (its
+        // connections closed) every pending connection is accepted and read to EOF — no wall-clock
+        // grace period decides what "was received"
+        let mut listeners = Vec::new();
+        let mut addrs = Vec::new();
+        for _ in 0..n {
+            let l = tokio::net::TcpListener::bind("127.0.0.1:0").await.map_err(|e| format!("bind: {}", e))?;
+            addrs.push(l.local_addr().map_err(|e| format!("addr: {}", e))?.to_string());
+            listeners.push(l);
+        }
+        let mut cfg = ReplicationConfig::new_partitioned_cluster(me, addrs, ring.replication_factor());
+        cfg.selective_gossip = spec.selective;
+        cfg.partitioned_mode = spec.partitioned;
+        cfg.enabled = spec.enabled;
+        cfg.gossip_interval_ms = 1;
+        let router = GossipRouter::from_config(&cfg, ring_arc.clone());
+        let calls = Arc::new(AtomicUsize::new(0));
+        let (tx, rx) = tokio::sync::oneshot::channel::<()>();
+        let tx = Mutex::new(Some(tx));
+        let c2 = calls.clone();
+        let b2 = batch.clone();
+        let collect = move || {
+            let k = c2.fetch_add(1, Ordering::SeqCst);
+            if k == 0 { b2.clone() } else {
+                // the second call: every send of the first tick has completed
+                if let Some(t) = tx.lock().unwrap().take() { let _ = t.send(()); }
+                Vec::new()
+            }
+        };
+        let task = if kind == "lock" {
+            let state = Arc::new(parking_lot::RwLock::new(GossipState::with_router(cfg.clone(), router)));
+            tokio::spawn(GossipManager::start_gossip_loop(cfg.clone(), state, collect))
+        } else {
+            let handle = GossipActor::spawn_with_router(cfg.clone(), router);
+            tokio::spawn(GossipManager::start_gossip_loop_with_actor(cfg.clone(), handle, collect))
+        };
+        let done = tokio::time::timeout(std::time::Duration::from_secs(10), rx).await;
+        task.abort();
+        let _ = task.await; // the loop's persistent connections are dropped here
+        if done.is_err() {
+            return Err("the loop did not come back for a second batch within 10 s".to_string());
+        }
+        for (i, l) in listeners.iter().enumerate() {
+            // a completed connect() is acceptable at once; the timeout only ends the scan
+            while let Ok(Ok((mut s, _))) = tokio::time::timeout(std::time::Duration::from_millis(20), l.accept()).await {
+                let mut buf = Vec::new();
+                match tokio::time::timeout(std::time::Duration::from_secs(5), s.read_to_end(&mut buf)).await {
+                    Ok(Ok(_)) => {}
+                    _ => return Err("a connection of the (aborted) loop did not reach EOF within 5 s".to_string()),
+                }
+                let mut pos = 0;
+                while pos + 4 <= buf.len() {
+                    let len = u32::from_be_bytes([buf[pos], buf[pos + 1], buf[pos + 2], buf[pos + 3]]) as usize;
+                    if pos + 4 + len > buf.len() {
+                        return Err("a truncated frame was received".to_string());
+                    }
+                    match GossipMessage::deserialize(&buf[pos + 4..pos + 4 + len]) {
+                        Ok(m) => received[i].lock().unwrap().push(m),
+                        Err(e) => return Err(format!("a frame does not deserialize: {}", e)),
+                    }
+                    pos += 4 + len;
+                }
+                if pos != buf.len() {
+                    return Err("trailing bytes after the last frame".to_string());
+                }
+            }
+        }
+        Ok(())
+    });
+    drop(rt);
+    if let Err(e) = outcome {
+        ctx.out.violation("C19:gossip-loop:harness", &format!("the gossip loop could not be driven: {}", e), json!({"kind": kind, "source": src}));
+        return;
+    }
+    // what each configured peer received
+    let mut rows: Vec<Vec<u64>> = Vec::new();
+    for i in 0..n {
+        let mut kps = Vec::new();
+        for m in received[i].lock().unwrap().iter() {
+            match m {
+                GossipMessage::TargetedDelta { deltas, .. } | GossipMessage::DeltaBatch { deltas, .. } => kps.extend(deltas.iter().map(|d| HashRing::verif_key_position(&d.key))),
+                _ => {}
+            }
+        }
+        rows.push(kps);
+    }
+    let mut l = format!("LOOP {} {} {} {} {} {}", me, n, spec.selective as u8, spec.partitioned as u8, spec.enabled as u8, dkeys.len());
+    for k in dkeys {
+        l.push_str(&format!(" {}", HashRing::verif_key_position(k)));
+    }
+    ctx.out.op(l, format!("loop {}", rows.iter().enumerate().map(|(i, r)| format!("{}:{}", i, csv(r))).collect::<Vec<_>>().join("|")));
+    ctx.out.count(&format!("gossip-loop:{}:{}", kind, if spec.effective_selective() { "selective" } else { "broadcast" }));
+    // oracle: every responsible replica other than the sender receives the delta; the member behind
+    // peer index i is the i-th member of 1..=n+1 with `me` left out
+    let member_of = |i: usize| -> u64 { if i as u64 + 1 >= me { i as u64 + 2 } else { i as u64 + 1 } };
+    let seq_cluster = me >= 1 && me as usize <= n + 1 && members.iter().all(|m| *m >= 1 && *m as usize <= n + 1);
+    if !seq_cluster {
+        ctx.out.count("excluded:gossip-loop:not-a-sequential-cluster");
+        return;
+    }
+    let pinned_id = |i: usize| -> u64 { if i as u64 >= me { i as u64 + 2 } else { i as u64 + 1 } };
+    for k in dkeys {
+        let kp = HashRing::verif_key_position(k);
+        let owners = ids(&ring.get_replicas(k));
+        for i in 0..n {
+            let t = member_of(i);
+            // per delta: as many copies as the batch holds updates of this key
+            let got = rows[i].iter().filter(|x| **x == kp).count() >= dkeys.iter().filter(|x| *x == k).count();
+            let owner = owners.contains(&t);
+            let replay = json!({"loop": if kind == "lock" { "GossipManager::start_gossip_loop" } else { "GossipManager::start_gossip_loop_with_actor" },
+                "replica_id": me, "peers": (0..n).map(|j| format!("address of member {}", member_of(j))).collect::<Vec<_>>(), "members": members,
+                "rf": ring.replication_factor(), "key": k, "owners": owners, "peer_index": i, "member": t, "received_by_peer": rows, "source": src});
+            if spec.effective_selective() {
+                if owner && !got {
+                    // cause: the loop's own address map gives index i the id pinned_id(i) != t
+                    let by_map = (0..n).find(|j| pinned_id(*j) == t);
+                    if by_map != Some(i) {
+                        ctx.out.violation("C19:gossip-loop:peer-map:off-by-one",
+                            &format!("{}: replica {} (peers = the other members of 1..={}) queues a TargetedDelta for owner {} of key {:?}, but the loop's own address map (`if i >= replica_id {{ i + 2 }} else {{ i + 1 }}`) registers peer index {} as id {}: {}: owner {} receives nothing",
+                                if kind == "lock" { "start_gossip_loop" } else { "start_gossip_loop_with_actor" }, me, n + 1, t, k, i, pinned_id(i),
+                                match by_map { None => format!("there is no address for id {}", t), Some(j) => format!("id {} is peer index {}, i.e. member {}", t, j, member_of(j)) }, t),
+                            replay);
+                    } else {
+                        ctx.out.violation("C19:gossip-loop:owner-starved", &format!("the gossip loop does not deliver the delta for key {:?} to owner {}", k, t), replay);
+                    }
+                } else if !owner && rows[i].contains(&kp) {
+                    ctx.out.violation("C19:gossip-loop:non-owner-targeted", &format!("the gossip loop delivers the delta for key {:?} to member {}, which is not a responsible replica", k, t), replay);
+                }
+            } else if !got {
+                ctx.out.violation("C19:gossip-loop:broadcast-incomplete", &format!("broadcast mode: member {} did not receive the delta for key {:?}", t, k), replay);
+            }
+        }
+    }
+}
+
+/// configuration extremes of the gossip loops: `gossip_interval_ms` (a plain u64) at 0 / 1 / u64::MAX —
+/// does the loop start and make its first tick?
+fn gossip_loop_interval_probe(ctx: &mut Ctx) {
+    use redis_sim::production::{GossipActor, GossipManager};
+    use std::sync::atomic::{AtomicUsize, Ordering};
+    for interval_ms in [0u64, 1, u64::MAX] {
+        for kind in ["lock", "actor"] {
+            let rt = tokio::runtime::Builder::new_current_thread().enable_all().build().unwrap();
+            let prev = std::panic::take_hook();
+            std::panic::set_hook(Box::new(|_| {}));
+            let res: Result<usize, String> = rt.block_on(async {
+                let mut cfg = ReplicationConfig::new_partitioned_cluster(1, vec![], 3);
+                cfg.gossip_interval_ms = interval_ms;
+                let calls = Arc::new(AtomicUsize::new(0));
+                let c2 = calls.clone();
+                let collect = move || { c2.fetch_add(1, Ordering::SeqCst); Vec::new() };
+                let task = if kind == "lock" {
+                    let state = Arc::new(parking_lot::RwLock::new(GossipState::new(cfg.clone())));
+                    tokio::spawn(GossipManager::start_gossip_loop(cfg.clone(), state, collect))
+                } else {
+                    tokio::spawn(GossipManager::start_gossip_loop_with_actor(cfg.clone(), GossipActor::spawn(cfg.clone()), collect))
+                };
+                // until the first tick or the end of the task (not a fixed wall-clock wait)
+                for _ in 0..5000 {
+                    if task.is_finished() || calls.load(Ordering::SeqCst) >= 1 {
+                        break;
+                    }
+                    tokio::time::sleep(std::time::Duration::from_millis(2)).await;
+                }
+                if task.is_finished() {
+                    match task.await {
+                        Err(e) if e.is_panic() => {
+                            let p = e.into_panic();
+                            Err(p.downcast_ref::<String>().cloned().or_else(|| p.downcast_ref::<&str>().map(|x| x.to_string())).unwrap_or_default())
+                        }
+                        _ => Err("the loop returned".to_string()),
+                    }
+                } else {
+                    task.abort();
+                    Ok(calls.load(Ordering::SeqCst))
+                }
+            });
+            std::panic::set_hook(prev);
+            ctx.out.count(&format!("gossip-loop:interval-probe:{}", if interval_ms == u64::MAX { "max".to_string() } else { interval_ms.to_string() }));
+            ctx.out.op(format!("LOOPI {}", interval_ms), match &res { Ok(_) => "runs".to_string(), Err(m) if m.contains("must be non-zero") => "panic zero-period".to_string(), Err(m) => format!("panic {}", m.replace(' ', "_")) });
+            match res {
+                Ok(n) if n >= 1 => {}
+                Ok(_) => ctx.out.violation("C19:gossip-loop:config:no-first-tick", &format!("gossip_interval_ms = {}: the loop never asked for deltas", interval_ms), json!({"gossip_interval_ms": interval_ms, "loop": kind})),
+                Err(msg) => ctx.out.violation(&format!("C19:gossip-loop:config:gossip_interval_ms={}:panics", if interval_ms == u64::MAX { "max".to_string() } else { interval_ms.to_string() }),
+                    &format!("ReplicationConfig {{ gossip_interval_ms: {} }} is accepted and the gossip loop ({}) then dies at start ({}): no update is ever sent to any owner", interval_ms, if kind == "lock" { "start_gossip_loop" } else { "start_gossip_loop_with_actor" }, msg),
+                    json!({"gossip_interval_ms": interval_ms, "loop": kind, "observed": msg, "expected": "a running loop, or a rejected configuration"})),
+            }
+        }
+    }
+}
+
 fn ring_replicas(r: &HashRing, keys: &[String]) -> Vec<Vec<u64>> {
     keys.iter().map(|k| ids(&r.get_replicas(k))).collect()
 }
@@ -607,11 +1335,39 @@ fn witness_from_config(ctx: &mut Ctx, rng: &mut Rng) {
     let seq = vec![1u64, 2, 3];
     let r = ctx.op_new(&seq, 50, 3);
     let keys: Vec<String> = vec!["k".into(), "user:1".into(), "".into()];
+    ctx.op_key_positions(&keys);
     ctx.op_replicas(&r, &keys, None);
     for me in 1..=3u64 {
-        let spec = RouterSpec { kind: "cfg", me, selective: true, peer_ids: vec![], npeers: 2 };
+        let spec = RouterSpec { kind: "cfg", me, selective: true, peer_ids: vec![], npeers: 2, partitioned: true, enabled: true };
         router_ops(ctx, rng, &r, &seq, &spec, &keys, "corpus: from_config, 3-node cluster, rf 3");
+        // the gossip loops of production/gossip_manager.rs with the same configuration, over real TCP
+        for kind in ["lock", "actor"] {
+            gossip_loop_ops(ctx, &r, &seq, &spec, &keys, kind, "corpus: gossip loop, 3-node cluster, rf 3, from_config router");
+        }
     }
+}
+
+/// the coverage audit of C19 against the eleven classes of missed inputs (also DESIGN §4 C19 "coverage audit")
+fn audit() -> serde_json::Value {
+    json!([
+      {"class": 1, "topic": "entry paths / variants never driven",
+       "covered": "every public item of hash_ring.rs, gossip_router.rs, gossip.rs, gossip_actor.rs, gossip_manager.rs, adaptive_replication.rs, config.rs is SCANNED FROM THE SOURCE the binary was built against and mapped to the op that drives it (153 items; unaccounted = C19:coverage:<file>:<item>-not-driven); new this session: with_defaults, is_responsible(_with_rf), get_primary, contains_node, version, node_count, get_distribution_stats, route_with_stats, calculate_reduction_ratio, update_peer / remove_peer, queue_deltas_broadcast, set_router, advance_epoch, is_selective, the whole GossipActor path (same script, same answers), BOTH gossip loops of production/gossip_manager.rs over real loopback TCP, AdaptiveReplicationManager's per-key RF",
+       "open": "GossipManager::start_server (binds a fixed port; takes no routing decision); GossipMessage::SyncRequest / SyncResponse (never constructed)"},
+      {"class": 2, "topic": "input alphabet", "covered": "keys: empty, ASCII, multi-byte, hash tags, 1-40 random letters, decimal u64 (their ring position is recomputed by the model from the bytes: KP conflicts=0); node ids 0, 1-9, 42, 1000, 0x9e37…, u64::MAX; batches with a key repeated (each delta its own payload / stamp)", "open": ""},
+      {"class": 3, "topic": "comparisons at equality",
+       "covered": "from_config `i + 1 >= replica_id`: replica_id 0, 1..n, n+1, n+2, u64::MAX with n-2 / n-1 / n peers; queue capacity 9 999 / 10 000 / 10 003 heartbeats before the batch; rf 0, 1, = cluster size, > cluster size; walk bounds: 0, 1, 2, many vnodes, keys in the tail of the ring; gossip_interval_ms 0 / 1 / max",
+       "open": "a key position EQUAL to a ring position (binary_search Ok branch, hash_ring.rs:149) needs a SipHash preimage; not reachable through the string API"},
+      {"class": 4, "topic": "configuration",
+       "covered": "every field from_config / the loops read: replica_id, peers, selective_gossip × partitioned_mode × enabled (all eight), gossip_interval_ms; every public builder shape of ReplicationConfig; ring: vnodes 0-200, rf 0-7; AdaptiveConfig default / both presets / random base_rf, hot_key_rf incl. hot < base",
+       "open": "replication_factor / virtual_nodes_per_physical of ReplicationConfig have no reader that builds a ring"},
+      {"class": 5, "topic": "capacity thresholds", "covered": "MAX_OUTBOUND_QUEUE crossed (QUEUE)", "open": "HotKeyConfig.max_tracked_keys (the float-based detector is not modelled)"},
+      {"class": 6, "topic": "fault kinds", "covered": "poisoned RwLock: not produced (no writer panics); loop start with a zero period panics (finding); a target without address is dropped silently (finding: peer-map)", "open": "TCP connect / write errors of send_to_peer_persistent (logged, message lost) — transport, not routing"},
+      {"class": 7, "topic": "history shapes", "covered": "all / sampled join orders; 2-5 add / remove steps incl. members and strangers; the ring emptied completely and refilled in another order; set_router replacing a different router; epochs advancing between queued batches", "open": ""},
+      {"class": 8, "topic": "node-global state", "covered": "the ring shared through Arc<RwLock<HashRing>>: changed AFTER the router was built, the next route must follow it; the connection pool of the loops (persistent connections) carries no routing state", "open": ""},
+      {"class": 9, "topic": "observations", "covered": "ring checksum over (position, node, index), rf, node_count, version, physical order; ordered replica lists; address book; routing table per target IN BATCH ORDER and per delta identity; queue contents with kind, target, source, EPOCH; what each configured peer RECEIVES from a loop", "open": "float statistics"},
+      {"class": 10, "topic": "finding signatures", "covered": "C19:gossip-loop:peer-map:off-by-one fires only when the outcome is what the loop's own arithmetic predicts and the correct arithmetic does not; any other starved owner is C19:gossip-loop:owner-starved (absorption audit: a loop that skips the LAST member is not absorbed)", "open": ""},
+      {"class": 11, "topic": "harness fragility", "covered": "a loop that does not come back within 10 s is C19:gossip-loop:harness; what a peer received is read to EOF from every pending connection AFTER the loop task is gone (no wall-clock grace period); listeners on ephemeral loopback ports (no fixed port); source scan from the tree named by harness/Cargo.toml", "open": ""}
+    ])
 }
 
 pub fn run(a: &Args) {
@@ -620,9 +1376,112 @@ pub fn run(a: &Args) {
     let thorough = a.tier == "thorough";
     // the witness uses its own stream so that the corpus case is the same for every seed
     let mut wr = Rng::new(7);
+    ctx.op_sip(&mut wr, 40);
     witness_from_config(&mut ctx, &mut wr);
+    gossip_loop_interval_probe(&mut ctx);
+    config_shapes(&mut ctx);
+    crate::srcscan::report(&mut ctx.out, "C19", "api_coverage(scanned from the source of the dependency)",
+        &["src/replication/hash_ring.rs", "src/replication/gossip_router.rs", "src/replication/gossip.rs", "src/production/gossip_actor.rs",
+          "src/production/gossip_manager.rs", "src/production/adaptive_replication.rs", "src/replication/config.rs"], &coverage);
+    ctx.out.extra.insert("audit".into(), audit());
     for i in 0..a.n {
         scenario(&mut ctx, &mut rng, thorough, i);
     }
     ctx.out.finish("case = one membership scenario (node ids, virtual nodes per node, replication factor, 12-28 keys) driven through: every / sampled join order of HashRing::new, get_replicas / get_replicas_with_rf / get_gossip_targets for all keys, 2-5 add_node / remove_node steps, a GossipRouter::new address book and a GossipRouter::from_config router with route_deltas and GossipState::queue_deltas; distinct by (nodes, vnodes, rf, keys); non-trivial iff >= 2 nodes, vnodes >= 1, rf >= 1 and the keys do not all share one replica list");
+}
+
+/// GossipRouter::from_config over every configuration SHAPE the public builders of
+/// ReplicationConfig produce (RCFG carries the fields from_config reads)
+fn config_shapes(ctx: &mut Ctx) {
+    let peers = |n: usize| -> Vec<String> { (0..n).map(|i| format!("peer{}", i)).collect() };
+    let shapes: Vec<(&str, ReplicationConfig)> = vec![
+        ("new_single_node", ReplicationConfig::new_single_node()),
+        ("default", ReplicationConfig::default()),
+        ("new_cluster(2, 3 peers)", ReplicationConfig::new_cluster(2, peers(3))),
+        ("new_cluster.with_partitioned_mode", ReplicationConfig::new_cluster(1, peers(2)).with_partitioned_mode()),
+        ("new_cluster.with_partitioned_mode.with_replication_factor(1)", ReplicationConfig::new_cluster(3, peers(2)).with_partitioned_mode().with_replication_factor(1)),
+        ("new_partitioned_cluster(4, 4 peers, rf 2)", ReplicationConfig::new_partitioned_cluster(4, peers(4), 2)),
+        ("new_partitioned_cluster.with_causal_consistency.with_virtual_nodes(7)", ReplicationConfig::new_partitioned_cluster(1, peers(1), 3).with_causal_consistency().with_virtual_nodes(7)),
+        ("new_partitioned_cluster, enabled = false", { let mut c = ReplicationConfig::new_partitioned_cluster(2, peers(2), 3); c.enabled = false; c }),
+        ("new_partitioned_cluster, no peers", ReplicationConfig::new_partitioned_cluster(1, vec![], 3)),
+        ("new_partitioned_cluster, replica_id = u64::MAX", ReplicationConfig::new_partitioned_cluster(u64::MAX, peers(2), 3)),
+    ];
+    for (name, cfg) in shapes {
+        let ring = HashRing::new((1..=cfg.cluster_size() as u64).map(ReplicaId::new).collect(), cfg.virtual_nodes_per_physical.min(MAX_VNODES), cfg.replication_factor);
+        let rt = GossipRouter::from_config(&cfg, Arc::new(RwLock::new(ring)));
+        let mut a = format!("peers self={} sel={}", rt.my_replica().0, rt.is_selective() as u8);
+        for (id, addr) in &peers_of(&rt) {
+            a.push_str(&format!(" {}:{}", id, addr));
+        }
+        ctx.out.op(format!("RCFG {} {} {} {} {}", cfg.replica_id, cfg.peers.len(), cfg.selective_gossip as u8, cfg.partitioned_mode as u8, cfg.enabled as u8), a);
+        ctx.out.count("from_config:builder-shape");
+        let want_sel = cfg.selective_gossip && cfg.partitioned_mode && cfg.enabled;
+        if rt.is_selective() != want_sel || cfg.uses_selective_gossip() != want_sel || cfg.is_partitioned() != (cfg.partitioned_mode && cfg.enabled) || rt.my_replica().0 != cfg.replica_id {
+            ctx.out.violation("C19:from_config:selective-mode", &format!("configuration shape `{}`: the router's mode / identity does not follow the configuration", name),
+                json!({"shape": name, "selective_gossip": cfg.selective_gossip, "partitioned_mode": cfg.partitioned_mode, "enabled": cfg.enabled, "is_selective": rt.is_selective()}));
+        }
+        let seq = cfg.replica_id >= 1 && cfg.replica_id as usize <= cfg.peers.len() + 1;
+        let want: BTreeSet<u64> = (1..=cfg.peers.len() as u64 + 1).filter(|i| *i != cfg.replica_id).collect();
+        if seq && peers_of(&rt).keys().cloned().collect::<BTreeSet<u64>>() != want {
+            ctx.out.violation("C19:from_config:peer-ids", &format!("configuration shape `{}`: from_config does not register exactly the other members", name), json!({"shape": name, "registered": peers_of(&rt)}));
+        }
+    }
+}
+
+/// every public item of the anchored files (scanned from the source this binary was built against)
+/// and how this harness accounts for it
+fn coverage(file: &str, item: &str) -> Option<&'static str> {
+    let f = file.rsplit('/').next().unwrap_or(file);
+    Some(match (f, item) {
+        // ---- hash_ring.rs
+        ("hash_ring.rs", "VirtualNode.physical_node" | "VirtualNode.virtual_index" | "VirtualNode::new") => "driven: every ring; compared through hook H2 (ring checksum over position / node / index), positions recomputed by the model (V lines)",
+        ("hash_ring.rs", "HashRing::new" | "HashRing::add_node" | "HashRing::remove_node") => "driven: NEW / ADD / REM (all / sampled join orders, members / non-members, emptied-then-refilled)",
+        ("hash_ring.rs", "HashRing::with_defaults") => "driven: NEWD",
+        ("hash_ring.rs", "HashRing::verif_ring_positions" | "HashRing::verif_key_position") => "hook H2: the observation itself (V / KP / ring checksum)",
+        ("hash_ring.rs", "HashRing::get_replicas" | "HashRing::get_replicas_with_rf") => "driven: K (default rf, explicit rf 0..8, rf from AdaptiveReplicationManager)",
+        ("hash_ring.rs", "HashRing::is_responsible_with_rf" | "HashRing::is_responsible" | "HashRing::get_primary" | "HashRing::contains_node") => "driven: OBS",
+        ("hash_ring.rs", "HashRing::get_gossip_targets") => "driven: T",
+        ("hash_ring.rs", "HashRing::version" | "HashRing::node_count" | "HashRing::nodes" | "HashRing::replication_factor") => "driven: every ring summary (ver= / n= / phys / rf=)",
+        ("hash_ring.rs", "HashRing::get_distribution_stats" | "DistributionStats.total_assignments" | "DistributionStats.min_per_node" | "DistributionStats.max_per_node") => "driven: STATS",
+        ("hash_ring.rs", "DistributionStats.mean_per_node" | "DistributionStats.std_dev") => "NOT compared: floats (derived from the compared counters; no placement decision reads them)",
+        // ---- gossip_router.rs
+        ("gossip_router.rs", "GossipRouter::new") => "driven: RNEW (covering / missing / self / stranger address books)",
+        ("gossip_router.rs", "GossipRouter::from_config") => "driven: RCFG (replica_id 0..n+2, peers n-2..n, selective_gossip / partitioned_mode / enabled, every builder shape)",
+        ("gossip_router.rs", "GossipRouter::route_deltas") => "driven: ROUTE (also after a membership change through the shared ring)",
+        ("gossip_router.rs", "GossipRouter::route_with_stats" | "RoutingStats.total_deltas" | "RoutingStats.total_assignments" | "RoutingStats.assignments_saved" | "RoutingStats.unique_targets") => "driven: ROUTES",
+        ("gossip_router.rs", "GossipRouter::calculate_reduction_ratio") => "driven: RATIO (the two counters; the ratio is a float)",
+        ("gossip_router.rs", "GossipRouter::get_peer_address" | "GossipRouter::peer_ids" | "GossipRouter::is_selective" | "GossipRouter::my_replica") => "driven: every `peers` answer line",
+        ("gossip_router.rs", "GossipRouter::update_peer" | "GossipRouter::remove_peer") => "driven: RUPD / RREM",
+        // ---- gossip.rs
+        ("gossip.rs", "const MAX_OUTBOUND_QUEUE") => "driven: QUEUE with 9 999 / 10 000 / 10 003 heartbeats queued first",
+        ("gossip.rs", "GossipMessage::DeltaBatch" | "GossipMessage::TargetedDelta" | "GossipMessage::Heartbeat" | "GossipMessage::new_delta_batch" | "GossipMessage::new_targeted_delta" | "GossipMessage::new_heartbeat") => "driven: QUEUE / GDRAIN / LOOP (kind, target, source, epoch, deltas compared)",
+        ("gossip.rs", "GossipMessage::SyncRequest" | "GossipMessage::SyncResponse") => "NOT driven: constructed by nothing in src/ (only matched on receipt); no routing decision involves them",
+        ("gossip.rs", "GossipMessage::source_replica" | "GossipMessage::into_deltas" | "GossipMessage::is_delta_message") => "accessors of a received message: not part of routing (C14 covers the codec)",
+        ("gossip.rs", "GossipMessage::serialize" | "GossipMessage::deserialize") => "driven: LOOP (the real loops serialise, the listeners deserialise); the codec itself is C14's subject",
+        ("gossip.rs", "fn create_gossip_channel") => "NOT driven: a tokio channel constructor",
+        ("gossip.rs", "RoutedMessage.target" | "RoutedMessage.message" | "RoutedMessage::broadcast" | "RoutedMessage::targeted") => "driven: every queued message (target vs message kind checked: envelope)",
+        ("gossip.rs", "GossipState.replica_id" | "GossipState.epoch" | "GossipState.config" | "GossipState.outbound_queue") => "driven: G* session (source replica and epoch of every message compared)",
+        ("gossip.rs", "GossipState::verify_invariants") => "NOT driven: debug-assertion helper (a no-op in the release profile the harness builds)",
+        ("gossip.rs", "GossipState::new" | "GossipState::with_router" | "GossipState::set_router" | "GossipState::advance_epoch" | "GossipState::queue_deltas" | "GossipState::queue_deltas_broadcast" | "GossipState::queue_heartbeat" | "GossipState::drain_outbound" | "GossipState::is_selective") => "driven: GNEW / GSET / GADV / GQ / GQB / GHB / GDRAIN / GSEL, QUEUE",
+        ("gossip.rs", "GossipState::router") => "accessor",
+        // ---- gossip_actor.rs
+        ("gossip_actor.rs", "GossipMessage::QueueDeltas" | "GossipMessage::QueueDeltasBroadcast" | "GossipMessage::QueueHeartbeat" | "GossipMessage::AdvanceEpoch" | "GossipMessage::DrainOutbound" | "GossipMessage::SetRouter" | "GossipMessage::IsSelective" | "GossipMessage::GetEpoch" | "GossipMessage::Shutdown") => "driven: the G* script replayed through the GossipActorHandle (one actor message kind per handle fn)",
+        ("gossip_actor.rs", "GossipActorHandle::new" | "GossipActorHandle::queue_deltas" | "GossipActorHandle::queue_deltas_broadcast" | "GossipActorHandle::queue_heartbeat" | "GossipActorHandle::advance_epoch" | "GossipActorHandle::drain_outbound" | "GossipActorHandle::set_router" | "GossipActorHandle::is_selective" | "GossipActorHandle::get_epoch" | "GossipActorHandle::shutdown" | "GossipActor::spawn" | "GossipActor::spawn_with_router") => "driven: the G* script through the actor (answers must equal the direct GossipState's), LOOP kind `actor`",
+        // ---- gossip_manager.rs
+        ("gossip_manager.rs", "GossipManager::start_gossip_loop" | "GossipManager::start_gossip_loop_with_actor") => "driven: LOOP over loopback TCP (what each configured peer receives), LOOPI (gossip_interval_ms 0 / 1 / max)",
+        ("gossip_manager.rs", "GossipManager::start_server") => "NOT driven: binds the fixed port 3001 + replica_id on 0.0.0.0 (cannot run next to other checks); the receiving side takes no routing decision",
+        ("gossip_manager.rs", "GossipManager::new" | "GossipManager::get_delta_sender" | "GossipManager::queue_outbound") => "NOT driven: channel plumbing with no reader in src/ (the struct is #[allow(dead_code)])",
+        ("gossip_manager.rs", "PeerState.replica_id" | "PeerState.address" | "PeerState.last_seen_epoch" | "PeerState.connected" | "PeerState::new") => "NOT driven: #[allow(dead_code)] record with no user in src/",
+        // ---- adaptive_replication.rs
+        ("adaptive_replication.rs", "AdaptiveConfig.base_rf" | "AdaptiveConfig.hot_key_rf" | "AdaptiveConfig.recalc_interval_ms" | "AdaptiveConfig.hotkey_config" | "AdaptiveConfig::high_throughput" | "AdaptiveConfig::low_latency") => "driven: ARF (default / both presets / random base_rf 0..4, hot_key_rf 0..7 incl. hot < base; recalc interval 1 and u64::MAX)",
+        ("adaptive_replication.rs", "AdaptiveReplicationManager::new" | "AdaptiveReplicationManager::observe" | "AdaptiveReplicationManager::get_rf_for_key" | "AdaptiveReplicationManager::recalculate" | "AdaptiveReplicationManager::force_recalculate" | "AdaptiveReplicationManager::get_hot_key_updates" | "AdaptiveReplicationManager::clear" | "AdaptiveReplicationManager::hot_key_count") => "driven: ARF (the rf of every key and the replica list for that rf; the hot SET is the implementation's — the float-based detector is not modelled), promotion / clear oracle",
+        ("adaptive_replication.rs", "AdaptiveReplicationManager::is_hot" | "AdaptiveReplicationManager::get_top_hot_keys" | "AdaptiveReplicationManager::stats" | "AdaptiveReplicationManager::verify_invariants" | "AdaptiveStats.current_hot_keys" | "AdaptiveStats.total_promotions" | "AdaptiveStats.total_demotions" | "AdaptiveStats.tracked_keys" | "AdaptiveStats.base_rf" | "AdaptiveStats.hot_rf") => "NOT part of C19: float access rates and counters that no placement decision reads",
+        // ---- config.rs
+        ("config.rs", "ConsistencyLevel::Eventual" | "ConsistencyLevel::Causal" | "ReplicationConfig.consistency_level" | "ReplicationConfig::with_causal_consistency") => "not read by placement / routing (C06's subject); both values occur in the builder shapes",
+        ("config.rs", "ReplicationConfig.enabled" | "ReplicationConfig.replica_id" | "ReplicationConfig.peers" | "ReplicationConfig.partitioned_mode" | "ReplicationConfig.selective_gossip") => "driven: RCFG / LOOP (generated: replica_id 0..n+2 and u64::MAX, 0..n peers, all eight flag combinations)",
+        ("config.rs", "ReplicationConfig.gossip_interval_ms" | "ReplicationConfig::gossip_interval") => "driven: LOOPI (0 / 1 / u64::MAX), LOOP (1 ms)",
+        ("config.rs", "ReplicationConfig.replication_factor" | "ReplicationConfig.virtual_nodes_per_physical" | "ReplicationConfig::with_replication_factor" | "ReplicationConfig::with_virtual_nodes") => "no code in src/ builds a HashRing from these two fields (rings are built by callers with explicit arguments); the ring's own rf 0..7 / vnodes 0..200 are generated; the builder shapes feed them into HashRing::new",
+        ("config.rs", "ReplicationConfig::new_single_node" | "ReplicationConfig::new_cluster" | "ReplicationConfig::new_partitioned_cluster" | "ReplicationConfig::with_partitioned_mode" | "ReplicationConfig::is_partitioned" | "ReplicationConfig::uses_selective_gossip" | "ReplicationConfig::cluster_size") => "driven: builder shapes through GossipRouter::from_config (RCFG)",
+        _ => return None,
+    })
 }
